@@ -737,6 +737,32 @@ def finish(prop, tier, units, t0, extra_cov=None, assumptions=(), not_covered=()
     n_obl = n_dis = n_bounded = 0
     recs = []
     fn_set = []
+    replayed = {}
+    for u in units:
+        # A refutation under uninterpreted arithmetic (mode ABS) that the real code does not reproduce may be an artefact of the
+        # abstraction: plain uninterpreted + and * are not commutative, IEEE's are.  Before it is reported, the unit is re-run with
+        # commutative symbols (-DCXX2C_ABS_COMM: operands canonically ordered, NaN operands propagate).  Pass -> the obligation holds
+        # (a harmless a*b -> b*a edit); fail -> violation; no answer -> undecided (exit 2), never a violation.
+        if u.status == "fail" and u.failed and u.mode == "ABS" and "CXX2C_ABS_ARITH" in u.defines and "CXX2C_ABS_COMM" not in u.defines:
+            tag = "%s_%s" % (prop, re.sub(r"[^A-Za-z0-9_.]", "_", u.name))
+            rc, rout = native_replay(u, u.inputs, os.path.join(VERIF, "replay"), tag) if u.inputs or u.replay else (None, "verifier gave no input assignment")
+            replayed[u.name] = (rc, rout)
+            if not ((rc == 1) or (isinstance(rc, int) and rc < 0 and rc != -9)):
+                import copy
+                v = copy.copy(u)
+                v.name, v.defines, v.timeout = u.name + ".comm", list(u.defines) + ["CXX2C_ABS_COMM"], max(u.timeout or 0, 1800)
+                v.status, v.reason, v.obligations, v.failed, v.inputs, v.cmds, v.raw, v.best_effort = None, "", [], [], {}, [], "", False
+                run_unit(v, os.path.join(BUILD, prop))
+                u.seconds += v.seconds
+                u.cmds += v.cmds
+                if v.status == "pass":
+                    print("  [comm] %s: refuted with non-commutative uninterpreted + and *, not reproduced on the real code, DISCHARGED with commutative symbols (%.0fs)" % (u.name, v.seconds), flush=True)
+                    u.status, u.failed, u.obligations, u.backend = "pass", [], v.obligations, u.backend + " (commutative re-check)"
+                elif v.status == "fail":
+                    print("  [comm] %s: refuted with commutative symbols as well" % u.name, flush=True)
+                else:
+                    u.status = "undecided"
+                    u.reason = "refuted under non-commutative uninterpreted arithmetic, not reproduced on the real code, and the commutative re-check gave no answer (%s)" % v.reason[:200]
     for u in units:
         for f in u.functions:
             if f not in fn_set:
@@ -764,7 +790,7 @@ def finish(prop, tier, units, t0, extra_cov=None, assumptions=(), not_covered=()
             k = match_known(known, prop, u, ob)
             tag = "%s_%s" % (prop, re.sub(r"[^A-Za-z0-9_.]", "_", u.name))
             rpath = os.path.join(VERIF, "replay", tag + ".json")
-            rc, rout = native_replay(u, u.inputs, os.path.join(VERIF, "replay"), tag) if u.inputs or u.replay else (None, "verifier gave no input assignment")
+            rc, rout = replayed[u.name] if u.name in replayed else (native_replay(u, u.inputs, os.path.join(VERIF, "replay"), tag) if u.inputs or u.replay else (None, "verifier gave no input assignment"))
             # exit 1 = oracle violated on the real code; a negative exit is a trap (SIGFPE/SIGSEGV) of the
             # real code on an input that satisfies the harness assumptions - also a reproduction
             reproduced = (rc == 1) or (isinstance(rc, int) and rc < 0 and rc != -9)
